@@ -446,3 +446,34 @@ def run(prog: Program, rep: Report, tier: str) -> None:
     ctor_order_analysis(prog, rep)
     load_module_analysis(prog, rep)
     warm_block_analysis(prog, rep, word or [x for x in STEP_WORD])
+
+
+from ..selftest import Mut  # noqa: E402
+
+M = "ladim/model.py"
+MAIN = "ladim/main.py"
+AUDIT = [
+    Mut("swap-tracker-output", M, "        if step >= 0:\n            self.output.update()\n\n        # --- Update state to next time step\n        # Improve: no need to update after last write\n        self.tracker.update()\n", "        self.tracker.update()\n        if step >= 0:\n            self.output.update()\n", rule="R19.1"),
+    Mut("force-before-release", M, "        self.release.update()\n        self.force.update()\n\n        # self.state.compactify()", "        self.force.update()\n        self.release.update()\n\n        # self.state.compactify()", rule="R19.1"),
+    Mut("ibm-twice", M, "        self.tracker.update()\n        self.ibm.update()\n\n    def finish", "        self.tracker.update()\n        self.ibm.update()\n        self.ibm.update()\n\n    def finish", rule="R19.1"),
+    Mut("gate-gt0", M, "        if step >= 0:\n            self.output.update()", "        if step > 0:\n            self.output.update()", rule="R19.1"),
+    Mut("ungated-output", M, "        if step >= 0:\n            self.output.update()", "        self.output.update()", rule="R19.1"),
+    Mut("ibm-conditional", M, "        self.tracker.update()\n        self.ibm.update()\n\n    def finish", "        self.tracker.update()\n        if step >= 0:\n            self.ibm.update()\n\n    def finish", rule="R19.1"),
+    Mut("warm-no-tracker", M, "            self.force.update()\n            self.tracker.update()\n            self.ibm.update()", "            self.force.update()\n            self.ibm.update()", rule="R19.6"),
+    Mut("warm-step-late", M, "            self.timer.step = 0\n            self.timer.time = self.timer.step2time(self.timer.step)\n            self.release.update()", "            self.release.update()\n            self.timer.step = 0\n            self.timer.time = self.timer.step2time(self.timer.step)", rule="R19.6"),
+    Mut("finish-drop-forcing", M, 'module_names = ["grid", "forcing", "release", "tracker", "ibm", "output"]', 'module_names = ["grid", "release", "tracker", "ibm", "output"]', rule="R19.3"),
+    Mut("finish-dup", M, 'module_names = ["grid", "forcing", "release", "tracker", "ibm", "output"]', 'module_names = ["grid", "forcing", "release", "tracker", "ibm", "output", "ibm"]', rule="R19.3"),
+    Mut("finish-break", M, "                module.close()\n", "                module.close()\n                break\n", rule="R19.3"),
+    Mut("main-loop-plus1", MAIN, "for _step in range(model.timer.Nsteps):", "for _step in range(model.timer.Nsteps + 1):", rule="R19.2"),
+    Mut("main-finish-in-loop", MAIN, "        model.update()\n", "        model.update()\n        model.finish()\n", rule="R19.2"),
+    Mut("main-update-twice", MAIN, "        model.update()\n", "        model.update()\n        model.update()\n", rule="R19.2"),
+    Mut("benign-release-last", M, '            "release",\n            "tracker",\n            "ibm",\n            "output",', '            "tracker",\n            "ibm",\n            "output",\n            "release",', expect="silent"),
+    Mut("tracker-before-time", M, '            "state",\n            "time",\n            "grid",\n            "forcing",\n            "release",\n            "tracker",', '            "state",\n            "tracker",\n            "time",\n            "grid",\n            "forcing",\n            "release",', rule="R19.4"),
+    Mut("grid-after-forcing", M, '            "grid",\n            "forcing",', '            "forcing",\n            "grid",', rule="R19.4"),
+    Mut("import-first", M, "    # First try to load the module from a file\n    if file_name.exists():", "    try:\n        return importlib.import_module(module_name)\n    except ModuleNotFoundError:\n        pass\n    if file_name.exists():", rule="R19.5"),
+    Mut("ignore-config-module", M, 'module_name = conf_dict.get("module", default_module_name)', "module_name = default_module_name", rule="R19.5"),
+    Mut("benign-logging", M, "        self.release.update()\n        self.force.update()\n\n        # self.state.compactify()", "        self.release.update()\n        logger.debug('released')\n        self.force.update()\n\n        # self.state.compactify()", expect="silent"),
+    Mut("benign-gate-spelling", M, "        if step >= 0:\n            self.output.update()", "        if not step < 0:\n            self.output.update()", expect="silent"),
+    Mut("benign-helper", M, "        self.tracker.update()\n        self.ibm.update()\n\n    def finish", "        self._advance()\n\n    def _advance(self) -> None:\n        self.tracker.update()\n        self.ibm.update()\n\n    def finish", expect="silent"),
+    Mut("benign-range0", MAIN, "for _step in range(model.timer.Nsteps):", "for _step in range(0, model.timer.Nsteps):", expect="silent"),
+]
